@@ -529,6 +529,25 @@ func runC13(c *core.Ctx) {
 		if _, err := base64.DecodeStringSafe(mk(base64.MAX_DECODE_SIZE+4, rm.B64Alphabet)); err == nil {
 			c.Violate("base64.DecodeStringSafe", "oversize-accepted", gen.Shape{"len": base64.MAX_DECODE_SIZE + 4}, nil, "")
 		}
+		// exactly the limit is accepted by every guarded decoder (a well-formed string of that length)
+		if d, err := base32.DecodeStringSafeNoPadding(mk(base32.MAX_DECODE_SIZE, rm.B32Alphabet)); err != nil || len(d) != base32.MAX_DECODE_SIZE/8*5 {
+			c.Violate("base32.DecodeStringSafeNoPadding", "limit-size-rejected", gen.Shape{"len": base32.MAX_DECODE_SIZE}, nil, fmt.Sprint(err))
+		}
+		if d, err := base32.DecodeStringSafe(mk(base32.MAX_DECODE_SIZE, rm.B32Alphabet)); err != nil || len(d) != base32.MAX_DECODE_SIZE/8*5 {
+			c.Violate("base32.DecodeStringSafe", "limit-size-rejected", gen.Shape{"len": base32.MAX_DECODE_SIZE}, nil, fmt.Sprint(err))
+		}
+		if base64.MAX_DECODE_SIZE%4 == 0 {
+			if d, err := base64.DecodeStringSafe(mk(base64.MAX_DECODE_SIZE, rm.B64Alphabet)); err != nil || len(d) != base64.MAX_DECODE_SIZE/4*3 {
+				c.Violate("base64.DecodeStringSafe", "limit-size-rejected", gen.Shape{"len": base64.MAX_DECODE_SIZE}, nil, fmt.Sprint(err))
+			}
+		}
+		// the unguarded unpadded decoder has no limit and accepts the empty string
+		if d, err := base32.DecodeStringNoPadding(""); err != nil || len(d) != 0 {
+			c.Violate("base32.DecodeStringNoPadding", "canonical-encoding-rejected-or-differs", gen.Shape{"len": 0}, nil, fmt.Sprint(err))
+		}
+		if d, err := base32.DecodeStringNoPadding(mk(base32.MAX_DECODE_SIZE+8, rm.B32Alphabet)); err != nil || len(d) != (base32.MAX_DECODE_SIZE+8)/8*5 {
+			c.Violate("base32.DecodeStringNoPadding", "canonical-encoding-rejected-or-differs", gen.Shape{"len": base32.MAX_DECODE_SIZE + 8}, nil, fmt.Sprint(err))
+		}
 		// the limit is on the length of the INPUT: line breaks count, although they decode to nothing
 		for _, f := range []struct {
 			site  string
